@@ -23,7 +23,7 @@ rsocket/fragment.py rsocket/helpers.py rsocket/lease.py rsocket/queue_peekable.p
 rsocket/handlers/request_response_requester.py rsocket/handlers/request_response_responder.py
 rsocket/handlers/request_stream_requester.py rsocket/handlers/request_stream_responder.py
 rsocket/handlers/request_cahnnel_common.py rsocket/handlers/request_channel_requester.py
-rsocket/handlers/request_channel_responder.py rsocket/handlers/interfaces.py rsocket/handlers/stream_handler.py
+rsocket/handlers/request_cahnnel_responder.py rsocket/frame_fragmenter.py rsocket/async_helpers.py rsocket/payload.py rsocket/request_handler.py
 rsocket/streams/stream_from_generator.py rsocket/streams/stream_from_async_generator.py rsocket/streams/helpers.py
 rsocket/streams/empty_stream.py rsocket/streams/error_stream.py rsocket/streams/null_subscrier.py
 rsocket/extensions/composite_metadata.py rsocket/extensions/tagging.py rsocket/extensions/routing.py
